@@ -25,7 +25,7 @@ ASSUMPTIONS = [
     "per-tomogram dimension tables list every tomogram of the particle list (plus possibly others); flipping with a table that omits a tomogram is not specified",
     "position tolerance 1e-9 * max(1, |p|, scale history); only for particles that passed within 1e-4 rad of gimbal lock: + 2e-7 * (sum of |shift vectors| applied so far, scaled) and orientation tolerance 1e-6 instead of 1e-9; orientation matrices compared at 1e-6 (scipy as_euler switches to its gimbal-lock branch for |sin theta| < 1e-7, an approximation of ~3e-8)",
 ]
-BUDGET = {"quick": {"examples": 2000, "seconds": 80}, "thorough": {"examples": 5000, "seconds": 540}}
+BUDGET = {"quick": {"examples": 1500, "seconds": 80}, "thorough": {"examples": 5000, "seconds": 540}}
 
 vec = st.one_of(
     st.tuples(gen.finite(-20, 20), gen.finite(-20, 20), gen.finite(-20, 20)).map(list),
@@ -57,6 +57,7 @@ def strategy(tier):
         "table": gen.table(1, 12, bulk_max=40, bulk_large=(250, 600)),
         "dims": st.lists(dims3, min_size=7, max_size=7),  # tomogram ids 1..7 (particles use 1..4)
         "ops": st.lists(op(), min_size=1, max_size=6),
+        "int_xyz": st.sampled_from([False, False, False, True]),  # extraction positions stored with an integer dtype (picked voxel indices)
     })
 
 
@@ -94,6 +95,10 @@ def run(case):
     out = Outcome()
     df0 = gen.table_df(case["table"])
     n = len(df0)
+    if case.get("int_xyz"):
+        for c_ in ("x", "y", "z"):
+            df0[c_] = np.round(df0[c_].to_numpy()).astype(np.int64)
+        out.label("integer_typed_xyz")
     ok, m = call(out, "Motl", lambda: cryomotl.Motl(df0.copy()))
     if not ok:
         return out
